@@ -62,6 +62,22 @@ type c08Case struct {
 	Stream    []int // indexes into Pool; repeated indexes are re-projections
 	ViaReader bool  // results come from a benchfmt.Reader that reuses one Result
 	Seed      uint64
+	// InPlace: ONE benchfmt.Result object is kept for the whole stream and
+	// rewritten in place between stream positions (name bytes overwritten in
+	// the existing slice, configuration values modified in place, keys added
+	// and deleted through SetConfig), the way a streaming producer does.
+	InPlace bool `json:",omitempty"`
+	// Rejected are expressions that are not projections; each is handed to
+	// Parse before parse step Pos of every parse order (after the last step
+	// if Pos == len(Exprs)). They only name keys that some expression of
+	// Exprs names, so the set of specific keys is the same under any reading
+	// of what a rejected expression registers.
+	Rejected []c08Rej `json:",omitempty"`
+}
+
+type c08Rej struct {
+	Pos  int   `json:"p"`
+	Text kit.B `json:"t"`
 }
 
 // ---------------------------------------------------------------------------
@@ -291,6 +307,59 @@ func c08Build(r *c08Res) *benchfmt.Result {
 	return res
 }
 
+// c08Rewrite turns the reused result object into r in place, within the
+// documented contract of benchfmt.Result: Name is the caller's []byte (its
+// bytes are overwritten when the length allows, otherwise the slice is
+// re-filled from index 0), configuration values are modified in place, keys
+// are added and deleted with SetConfig, the File flag of an entry is set in
+// the slice element.
+func c08Rewrite(res *benchfmt.Result, r *c08Res) {
+	name := c08Name(r)
+	if len(name) == len(res.Name) {
+		if string(res.Name) != name {
+			kit.Count("c08.inplace_same_length_renames", 1)
+		}
+		copy(res.Name, name)
+	} else {
+		res.Name = append(res.Name[:0], name...)
+	}
+	want := map[string]bool{}
+	for _, cf := range r.Cfg {
+		if len(cf.Val) > 0 {
+			want[string(cf.Key)] = true
+		}
+	}
+	var dels []string
+	for _, cf := range res.Config {
+		if !want[cf.Key] {
+			dels = append(dels, cf.Key)
+		}
+	}
+	for _, k := range dels {
+		res.SetConfig(k, "")
+	}
+	for _, cf := range r.Cfg {
+		k, v := string(cf.Key), string(cf.Val)
+		if v == "" {
+			continue
+		}
+		pos, ok := res.ConfigIndex(k)
+		if !ok {
+			res.SetConfig(k, v)
+			pos, _ = res.ConfigIndex(k)
+		} else if e := &res.Config[pos]; len(e.Value) == len(v) {
+			copy(e.Value, v)
+		} else {
+			e.Value = append(e.Value[:0], v...)
+		}
+		res.Config[pos].File = cf.File
+	}
+	res.Values = res.Values[:0]
+	for i, u := range r.Units {
+		res.Values = append(res.Values, benchfmt.Value{Value: float64(i + 1), Unit: string(u)})
+	}
+}
+
 // c08ReaderText renders the stream as benchmark text: before each benchmark
 // line the file configuration lines that turn the previous result's file
 // configuration into this one's (an empty value deletes a key).
@@ -382,6 +451,8 @@ func c08NewProj(p *benchproc.Projection, keys []string, label string) *c08Proj {
 		want: map[benchproc.Key]*c08Want{}, unitV: map[benchproc.Key]string{}}
 }
 
+var errC08Skip = &kit.Fail{Sig: "skip"}
+
 func c08Setup(c *c08Case, order []int, texts []string, haveConfig, haveFullname bool) (*c08State, *kit.Fail) {
 	st := &c08State{order: order, projs: make([]*c08Proj, len(c.Exprs)+1),
 		all: map[[7]benchproc.Key]string{}, rhs: map[string][7]benchproc.Key{}}
@@ -390,7 +461,22 @@ func c08Setup(c *c08Case, order []int, texts []string, haveConfig, haveFullname 
 	if err != nil {
 		return nil, kit.Failf("monitor-setup", "NewFilter(*): %v", err)
 	}
-	for _, ei := range order {
+	rejected := func(step int) bool {
+		for _, rj := range c.Rejected {
+			if rj.Pos != step {
+				continue
+			}
+			if _, err := pp.Parse(string(rj.Text), filter); err == nil {
+				return false // whether this text is a projection is C07's subject
+			}
+			kit.Count("c08.rejected_parse_calls", 1)
+		}
+		return true
+	}
+	for step, ei := range order {
+		if !rejected(step) {
+			return nil, errC08Skip
+		}
 		keys := make([]string, len(c.Exprs[ei]))
 		for i, f := range c.Exprs[ei] {
 			keys[i] = string(f.Key)
@@ -426,6 +512,9 @@ func c08Setup(c *c08Case, order []int, texts []string, haveConfig, haveFullname 
 			return nil, kit.Failf("fields-shape", "%s: unit field %q not last", label, unit.Name)
 		}
 		st.projs[ei] = pr
+	}
+	if !rejected(len(order)) {
+		return nil, errC08Skip
 	}
 	res := pp.Residue()
 	var rkeys []string
@@ -531,6 +620,10 @@ func c08Check(c c08Case) *kit.Fail {
 	states := make([]*c08State, len(perms))
 	for i, o := range perms {
 		st, f := c08Setup(&c, o, texts, haveConfig, haveFullname)
+		if f == errC08Skip {
+			kit.Count("c08.rejected_expression_accepted_case_skipped", 1)
+			return nil
+		}
 		if f != nil {
 			return f
 		}
@@ -568,6 +661,10 @@ func c08Check(c c08Case) *kit.Fail {
 	var rd *benchfmt.Reader
 	if c.ViaReader {
 		rd = benchfmt.NewReader(strings.NewReader(c08ReaderText(&c)), "c08")
+	}
+	var reused *benchfmt.Result
+	if c.InPlace && rd == nil {
+		reused = &benchfmt.Result{Iters: 1}
 	}
 	seenPool := map[int]bool{}
 	for t, pi := range c.Stream {
@@ -609,6 +706,10 @@ func c08Check(c c08Case) *kit.Fail {
 				}
 			}
 		}
+		if reused != nil {
+			c08Rewrite(reused, r)
+			res = reused
+		}
 		if seenPool[pi] {
 			kit.Count("c08.reprojections", 1)
 		}
@@ -619,7 +720,7 @@ func c08Check(c c08Case) *kit.Fail {
 		for _, st := range states {
 			var arr [7]benchproc.Key
 			for si, pr := range st.projs {
-				if rd == nil {
+				if rd == nil && reused == nil {
 					res = c08Build(r) // fresh object each time: no aliasing between projections
 				}
 				w := wantOf(pr, pi, si)
@@ -943,6 +1044,165 @@ func c08GenSized(r *kit.Rand, i int, small bool) c08Case {
 	return c
 }
 
+// c08GenInPlace: the same cases, projected from ONE result object that is
+// rewritten in place (1 in 5 with the long streams).
+func c08GenInPlace(r *kit.Rand, i int) c08Case {
+	c := c08GenSized(r, i, i%5 != 0)
+	c.ViaReader, c.InPlace = false, true
+	// Make renames to a different name of the same length frequent: half of
+	// the new results take the name structure of their predecessor in the
+	// stream with one component replaced by another of the same length.
+	swap := map[string][]string{
+		"X": {"Y"}, "Y": {"X"}, "a": {"b", "1", "2"}, "b": {"a", "1", "2"}, "1": {"2", "a"}, "2": {"1", "b"}, "4": {"1", "2"},
+		"ab": {"ba", "aa", "12"}, "ba": {"ab", "12"}, "aa": {"ab", "ba"}, "12": {"ab", "ba"}, "16": {"12"}, "Foo": {"Bar", "Fop"}, "4k": {"ab", "12"}, "q1": {"ab"}, "x": {"a"},
+	}
+	first := map[int]bool{}
+	for t, pi := range c.Stream {
+		isNew := !first[pi]
+		first[pi] = true
+		if t == 0 || !isNew || !r.Chance(0.5) {
+			continue
+		}
+		prev, cur := &c.Pool[c.Stream[t-1]], &c.Pool[pi]
+		cur.Base, cur.Gmp = prev.Base, prev.Gmp
+		cur.Parts = append([]c08Part(nil), prev.Parts...)
+		switch x := r.Intn(3); {
+		case x == 0 && len(swap[string(cur.Base)]) > 0:
+			cur.Base = kit.B(kit.Pick(r, swap[string(cur.Base)]))
+		case x == 1 && cur.Gmp != "" && len(swap[cur.Gmp]) > 0:
+			cur.Gmp = kit.Pick(r, []string{"1", "2", "4"})
+			if len(prev.Gmp) == 2 {
+				cur.Gmp = kit.Pick(r, []string{"12", "16", "32"})
+			}
+		default:
+			if len(cur.Parts) > 0 {
+				j := r.Intn(len(cur.Parts))
+				if alt := swap[string(cur.Parts[j].Val)]; len(alt) > 0 {
+					cur.Parts[j].Val = kit.B(kit.Pick(r, alt))
+				}
+			}
+		}
+		if cur.Gmp == "" {
+			for c08GmpDigits.MatchString(c08Name(cur)) {
+				if n := len(cur.Parts); n > 0 {
+					cur.Parts[n-1].Val += "x"
+				} else {
+					cur.Base += "x"
+				}
+			}
+		}
+	}
+	return c
+}
+
+// c08GenRejected: the same cases (all three result sources) plus 1-3 rejected
+// Parse calls interleaved with the valid ones.
+func c08GenRejected(r *kit.Rand, i int) c08Case {
+	c := c08GenSized(r, i, i%10 != 0)
+	c.InPlace = i%4 == 1
+	var named []string
+	seen := map[string]bool{}
+	for _, e := range c.Exprs {
+		for _, f := range e {
+			if k := string(f.Key); !seen[k] {
+				seen[k] = true
+				named = append(named, k)
+			}
+		}
+	}
+	for n := r.Range(1, 3); n > 0; n-- {
+		var fields []c08Field
+		for m := r.Range(1, 3); m > 0; m-- {
+			fields = append(fields, c08GenField(r, kit.Pick(r, named)))
+		}
+		bk := c08Word(kit.Pick(r, named))
+		bads := []string{".unit", ".unit@alpha", bk + "@alhpa", bk + "@numeric", bk + "@ALPHA", bk + "@x"}
+		malformed := []string{bk + "@(a b", bk + "@"}
+		if seen[".config"] {
+			bads = append(bads, ".config@(a b)")
+		}
+		sep := kit.Pick(r, []string{",", " "})
+		var text string
+		switch x := r.Intn(10); {
+		case x < 2: // malformed token, last
+			text = c08ExprText(fields, sep) + sep + kit.Pick(r, malformed)
+		case x < 8: // ruled-out field, last
+			text = c08ExprText(fields, sep) + sep + kit.Pick(r, bads)
+		default: // ruled-out field somewhere before the end
+			at := r.Intn(len(fields))
+			text = kit.Pick(r, bads) + sep + c08ExprText(fields[at:], sep)
+			if at > 0 {
+				text = c08ExprText(fields[:at], sep) + sep + text
+			}
+		}
+		c.Rejected = append(c.Rejected, c08Rej{Pos: r.Intn(len(c.Exprs) + 1), Text: kit.B(text)})
+	}
+	return c
+}
+
+// c08NonTrivialInPlace: some name key is specific (so .fullname is a computed
+// value) and the reused result is renamed at least twice to a different name
+// of the same length (the bytes of the previous name are overwritten).
+func c08NonTrivialInPlace(c c08Case) bool {
+	_, sn, _, _ := c08Sets(&c)
+	if !c.InPlace || len(sn) == 0 {
+		return false
+	}
+	n := 0
+	for t := 1; t < len(c.Stream); t++ {
+		a, b := c.Stream[t-1], c.Stream[t]
+		if a < 0 || b < 0 || a >= len(c.Pool) || b >= len(c.Pool) {
+			return false
+		}
+		if x, y := c08Name(&c.Pool[a]), c08Name(&c.Pool[b]); len(x) == len(y) && x != y {
+			n++
+		}
+	}
+	return n >= 2
+}
+
+// c08NonTrivialRejected: a rejected Parse call names (as a word of its text;
+// the generator only uses keys of the case) a specific key that occurs in the
+// stream, and the plain rule about excluded keys holds.
+func c08NonTrivialRejected(c c08Case) bool {
+	if len(c.Rejected) == 0 {
+		return false
+	}
+	sc, sn, _, _ := c08Sets(&c)
+	occurs := map[string]bool{}
+	for _, pi := range c.Stream {
+		if pi < 0 || pi >= len(c.Pool) {
+			return false
+		}
+		r := &c.Pool[pi]
+		for _, cf := range r.Cfg {
+			occurs[string(cf.Key)] = true
+		}
+		for _, p := range r.Parts {
+			if !p.Pos {
+				occurs["/"+string(p.Key)] = true
+			}
+		}
+		if r.Gmp != "" {
+			occurs["/gomaxprocs"] = true
+		}
+		occurs[".name"] = true
+	}
+	for _, rj := range c.Rejected {
+		for k := range sc {
+			if occurs[k] && strings.Contains(string(rj.Text), c08Word(k)) {
+				return true
+			}
+		}
+		for k := range sn {
+			if occurs[k] && strings.Contains(string(rj.Text), c08Word(k)) {
+				return true
+			}
+		}
+	}
+	return false
+}
+
 func minInt(a, b int) int {
 	if a < b {
 		return a
@@ -1007,7 +1267,19 @@ func TestVerifC08(t *testing.T) {
 		Gen: c08GenSmall, Check: c08Check, NonTrivial: c08NonTrivialSmall, MinNonTrivial: 800,
 		Rule: "same generator with 2-3 expressions and streams of 8-14 results (late key = first seen after >=3 results): many more expression sets, minimal witnesses",
 	}
-	kit.Run(t, "C08", small, kit.Class[c08Case]{
+	inplace := kit.Class[c08Case]{
+		Name: "inplace-reused-result", Quick: 4000, Thorough: 80000,
+		Gen: c08GenInPlace, Check: c08Check, NonTrivial: c08NonTrivialInPlace, MinNonTrivial: 1000,
+		Rule: "same generators (4 of 5 small streams, 1 of 5 long; half of the new results take their predecessor's name with one component replaced by another of the same length), but ONE benchfmt.Result is kept for the whole stream and rewritten in place between stream positions: name bytes overwritten in the existing slice when the length is the same (else the slice is re-filled), configuration values modified in place, keys added/deleted through SetConfig, Values re-filled; " +
+			"non-trivial = some name key is specific and the result is renamed at least twice to a different name of the same length",
+	}
+	rejected := kit.Class[c08Case]{
+		Name: "rejected-parses-interleaved", Quick: 3000, Thorough: 80000,
+		Gen: c08GenRejected, Check: c08Check, NonTrivial: c08NonTrivialRejected, MinNonTrivial: 1000,
+		Rule: "same generators (9 of 10 small streams; all three result sources) plus 1-3 Parse calls on expressions that are not projections (1-3 valid fields followed or preceded by .unit, an unknown order word, a list on .config, an unclosed list or a missing order), placed before/between/after the valid Parse calls of EVERY parse order; the rejected expressions only name keys that some valid expression of the case names, so the expected set of specific keys is unchanged; " +
+			"non-trivial = a rejected expression names a specific key that occurs in the stream",
+	}
+	kit.Run(t, "C08", small, inplace, rejected, kit.Class[c08Case]{
 		Name: "parse-orders-x-streams", Quick: 900, Thorough: 20000,
 		Gen: c08Gen, Check: c08Check, NonTrivial: c08NonTrivial, MinNonTrivial: 150,
 		Rule: "2-5 projection expressions over {.config,.fullname,.name,.file,/a,/b,/ab,/gomaxprocs,/size,k1..k6,\"a b\"} with first/alpha/num/fixed orders, " +
